@@ -223,7 +223,7 @@ func (r *Run) Finish() {
 	var knownLines []string
 	for i, k := range r.known {
 		if n := r.knownSeen[i]; n > 0 {
-			knownLines = append(knownLines, fmt.Sprintf("KNOWN-FINDING: property=%s %s [oracle=%s cases=%d first=%s]", r.ID, k.What, k.Oracle, n, trunc(r.knownFirst[i], 300)))
+			knownLines = append(knownLines, fmt.Sprintf("KNOWN-FINDING: property=%s %s [oracle=%s cases=%d first=%s]", r.ID, k.What, k.Oracle, n, trunc(r.knownFirst[i], 160)))
 		}
 	}
 	cov["known_findings_seen"] = knownLines
